@@ -258,3 +258,24 @@ theorem concatLE_lt : ∀ (l : List (Nat × Nat)), (∀ ka ∈ l, ka.2 < 2 ^ ka.
     nlinarith [Nat.two_pow_pos k, Nat.two_pow_pos (bitsTotal t)]
 
 end MidnightZK.C07
+
+namespace MidnightZK.C07
+
+/-- A rotation of a `w`-bit word is a `w`-bit word. -/
+theorem rotr_lt (w x n : Nat) (hx : x < 2 ^ w) (hn : n ≤ w) : rotr w x n < 2 ^ w := by
+  unfold rotr
+  have hs : n + (w - n) = w := by omega
+  have hPQ : 2 ^ w = 2 ^ n * 2 ^ (w - n) := by rw [← pow_add, hs]
+  have hP := Nat.two_pow_pos n
+  have hQ := Nat.two_pow_pos (w - n)
+  have h1 : x / 2 ^ n < 2 ^ (w - n) := by
+    rw [Nat.div_lt_iff_lt_mul hP, Nat.mul_comm, ← hPQ]; exact hx
+  have h2 : x % 2 ^ n < 2 ^ n := Nat.mod_lt _ hP
+  rw [hPQ]
+  generalize 2 ^ n = P at *
+  generalize 2 ^ (w - n) = Q at *
+  generalize x / P = a at *
+  generalize x % P = b at *
+  nlinarith
+
+end MidnightZK.C07
